@@ -5,10 +5,10 @@
      * the collected obligations are violated on the known F1 witness (capacity 10, limit 15, a 10-byte string
        interned, then an 8-byte string): the 8 bytes are copied into a 5-byte bucket. *)
 From Lasso Require Import Base Arena ArenaProofs.
-From LassoGen Require Import GenPrelude GenIR GenTactics ArenaGen.
+From LassoGen Require Import GenPrelude GenIR GenRequest GenTactics ArenaGen.
 Open Scope N_scope.
 
-Theorem legacy_store_str_eq : forall a s,
+Theorem legacy_store_str_eq : forall a s, 2 * bucket_cap a <= isize_max -> slen s <= isize_max ->
   as_str_result (fst (run_fun gen_store_str a s [])) = Some (Arena.vec_store_legacy a s).
 Proof. gen_arena_tac. Qed.
 
